@@ -9,6 +9,7 @@ R-EXIT-ZERO                after apply_codemods, run() has no non-zero status th
 from __future__ import annotations
 
 import ast
+import re
 
 from ..flow import FlowAnalysis, has_event, may_event
 from ..model import AnalysisError, FuncInfo, call_name, last_attr, names_in, unparse, walk_no_nested
@@ -189,11 +190,14 @@ def rule_accumulate_all(ctx, rep, rule_id="R-ACCUMULATE-ALL"):
             params = m.positional_params()[1:]
             r = ctx.resolver(m)
             coll_params = []
+            ordered_params: set[str] = set()
             for p in params:
                 ann = r.param_annotation(p)
                 t = unparse(ann) if ann is not None else ""
-                if any(w in t for w in ("list", "List", "set", "Set", "Sequence", "Iterable", "dict", "Dict")):
+                if re.search(r"(?<![A-Za-z_])(list|List|set|Set|Sequence|Iterable|dict|Dict)(\[|$)", t):
                     coll_params.append(p)
+                    if re.match(r"(typing\.)?(list|List|Sequence)(\[|$)", t):
+                        ordered_params.add(p)
             if not coll_params:
                 continue
             es = ElemSources(ctx, m)
@@ -206,6 +210,7 @@ def rule_accumulate_all(ctx, rep, rule_id="R-ACCUMULATE-ALL"):
             pm = ctx.parents(m)
             for p in coll_params:
                 mine = []
+                ordered = p in ordered_params
                 for c in stores:
                     if c.func.attr in ("append", "add"):
                         # element-wise store inside `for v in p:` -- the same thing as extend(p) when nothing guards it
@@ -224,7 +229,18 @@ def rule_accumulate_all(ctx, rep, rule_id="R-ACCUMULATE-ALL"):
                     if any(isinstance(leaf, ast.Name) and leaf.id == p for leaf, _f in leaves) or p in names_in(c.args[0]):
                         mine.append((c, leaves))
                 if not mine:
-                    continue  # the parameter is not stored element-wise here (e.g. transformed first): judged elsewhere
+                    # a keyed store (`self.x[...][key_of(v)] = v` in a loop over p, or a dict built from p) is a store all the same
+                    keyed = [a for a in walk_no_nested(m.node) if isinstance(a, ast.Assign) and isinstance(a.targets[0], ast.Subscript)
+                             and "self" in names_in(r.expand(a.targets[0].value) if isinstance(a.targets[0].value, ast.Name) else a.targets[0].value)]
+                    if keyed and ordered:
+                        n += 1
+                        rep.check(rule_id, m.qname, m.loc(keyed[0]), False, f"{name}({p})",
+                                  f"`{unparse(keyed[0])[:70]}` files the elements of the list `{p}` under a key: two elements with the same key "
+                                  "(two changesets for one path, two findings of one rule) overwrite each other and one of them never reaches the report")
+                        continue
+                    if any(p in names_in(x) for x in walk_no_nested(m.node) if isinstance(x, ast.Call)):
+                        raise AnalysisError(f"{m.qname}: how the collection parameter `{p}` is stored is not understood")
+                    continue  # the parameter is not used at all
                 n += 1
                 ok = True
                 why = ""
@@ -233,6 +249,11 @@ def rule_accumulate_all(ctx, rep, rule_id="R-ACCUMULATE-ALL"):
                     if not whole:
                         ok = False
                         why = f"`{unparse(c)[:70]}` stores only some elements of `{p}` (filtered or transformed)"
+                    if ordered and c.func.attr in ("update", "add"):
+                        # the parameter is a list (changesets, failures, findings: duplicates and same-key items are all meant to be kept)
+                        ok = False
+                        why = (f"`{unparse(c)[:70]}` files the elements of the list `{p}` in a set/dict: elements that are equal or share a key "
+                               "(two changesets for one path) collapse into one and the other never reaches the report")
                     st = fa.state_at(c)
                     guarded = st is not None and any(
                         txt for must, _ in st.parts for pol, txt in must
@@ -354,6 +375,39 @@ def rule_exit_zero(ctx, rep):
     rule_zero_after_report(ctx, rep)
 
 
+# semgrep options that turn what the scan merely *notices* in a target (findings, files it can only partly parse) into a failing exit status
+SEMGREP_FAILING_FLAGS = {"--strict": "exit 3 when a target can only be partially parsed", "--error": "exit 1 when there are findings"}
+
+
+def rule_scan_tolerant(ctx, rep, rule_id="R-SCAN-TOLERANT"):
+    rep.rule(
+        rule_id,
+        "codemodder.semgrep.run raises on every non-zero exit status of the scan, so the command line must not ask semgrep to fail because "
+        "of what it sees in a *target*: none of the constant words of the command is `--strict` (exit 3 on a target it can only partially "
+        "parse) or `--error` (exit 1 on findings).  With them one unparsable file aborts the whole run - no other file, no other codemod, no report",
+        min_instances=1,
+    )
+    fn = ctx.prog.func("codemodder.semgrep.run")
+    words: list[tuple[str, ast.AST]] = []
+    spawn = None
+    for c in walk_no_nested(fn.node):
+        if isinstance(c, ast.Call) and (ctx.resolver(fn).callee_qname(c) or "").startswith("subprocess."):
+            spawn = c
+    if spawn is None:
+        raise AnalysisError("codemodder.semgrep.run no longer starts a process")
+    raises = any(isinstance(x, ast.Raise) for x in walk_no_nested(fn.node)) or any(k.arg == "check" and isinstance(k.value, ast.Constant) and k.value.value for k in spawn.keywords)
+    for x in walk_no_nested(fn.node):
+        if isinstance(x, ast.Constant) and isinstance(x.value, str) and x.value.startswith("-"):
+            for w in x.value.split():
+                words.append((w.split("=")[0], x))
+    if "--sarif" not in {w for w, _ in words} and "scan" not in {x.value for x in walk_no_nested(fn.node) if isinstance(x, ast.Constant) and isinstance(x.value, str)}:
+        raise AnalysisError("codemodder.semgrep.run: the semgrep command line was not recognised")
+    bad = [(w, x) for w, x in words if w in SEMGREP_FAILING_FLAGS]
+    rep.check(rule_id, fn.qname, fn.loc(bad[0][1]) if bad else fn.loc(spawn), not (bad and raises), "failing-flags",
+              f"the scan is started with `{bad[0][0]}` ({SEMGREP_FAILING_FLAGS[bad[0][0]]}) and run() raises on a non-zero status: a single such file ends the run" if bad else "",
+              flags=sorted({w for w, _ in words}))
+
+
 def check(ctx, rep):
     rep.explanation = (
         "For the three transformer pipelines the input-dependent calls before the write are enumerated and each is required to "
@@ -372,6 +426,7 @@ def check(ctx, rep):
 
     rule_codec_agree(ctx, rep)
     rule_exit_zero(ctx, rep)
+    rule_scan_tolerant(ctx, rep)
     rep.not_covered += [
         "that other files get byte-identical outcomes under a fault (runtime behaviour)",
         "faults inside semgrep / result-file loading (raised before per-file processing)",
